@@ -1137,6 +1137,8 @@ impl DbInner {
 							Ok(next) => next,
 							Err(e) => {
 								log::debug!(target: "parity-db", "Error reading log: {:?}", e);
+								drop(reader);
+								self.reject_replayed_record()?;
 								return Ok(false)
 							},
 						};
@@ -1145,6 +1147,7 @@ impl DbInner {
 								log::debug!(target: "parity-db", "Unexpected log header");
 								drop(reader);
 								self.log.clear_replay_logs();
+								self.reject_replayed_record()?;
 								return Ok(false)
 							},
 							LogAction::EndRecord => break,
@@ -1162,6 +1165,7 @@ impl DbInner {
 									log::warn!(target: "parity-db", "Error validating log: {:?}.", e);
 									drop(reader);
 									self.log.clear_replay_logs();
+									self.reject_replayed_record()?;
 									return Ok(false)
 								}
 							},
@@ -1179,6 +1183,7 @@ impl DbInner {
 									log::warn!(target: "parity-db", "Error validating log: {:?}.", e);
 									drop(reader);
 									self.log.clear_replay_logs();
+									self.reject_replayed_record()?;
 									return Ok(false)
 								}
 							},
@@ -1196,6 +1201,7 @@ impl DbInner {
 									log::warn!(target: "parity-db", "Error validating log: {:?}.", e);
 									drop(reader);
 									self.log.clear_replay_logs();
+									self.reject_replayed_record()?;
 									return Ok(false)
 								}
 							},
@@ -1314,6 +1320,14 @@ impl DbInner {
 		} else {
 			Ok(false)
 		}
+	}
+
+	/// A log record was rejected during replay: undo what its validation changed in memory.
+	fn reject_replayed_record(&self) -> Result<()> {
+		for c in self.columns.iter() {
+			c.reload_after_rejected_log()?;
+		}
+		Ok(())
 	}
 
 	fn flush_logs(&self, min_log_size: u64) -> Result<bool> {
